@@ -116,7 +116,7 @@ func yamlEntry(p *prng, c yamlCase, key string) []string {
 }
 
 var yamlFaultKinds = []string{"flow-seq-open", "flow-map-open", "flow-mismatch", "bad-start-char", "dquote-open", "squote-open",
-	"over-indent", "tab-indent", "dup-key", "complex-key", "seq-in-map", "bad-escape", "colon-in-plain", "bad-anchor-char",
+	"flow-deep", "over-indent", "tab-indent", "dup-key", "complex-key", "seq-in-map", "bad-escape", "colon-in-plain", "bad-anchor-char",
 	"unknown-alias", "bad-binary", "bad-merge", "insert", "truncate"}
 
 // faultEntry returns the lines of the faulty entry.
@@ -126,6 +126,9 @@ func faultEntry(c yamlCase, key, first string) []string {
 		return []string{key + ": [1, 2"}
 	case "flow-map-open":
 		return []string{key + ": {a: 1, b: 2"}
+	case "flow-deep":
+		p := &prng{s: c.Seed ^ 99}
+		return []string{key + `: ["` + ytext(p, c.Chars, c.Width, true) + `", {a: "` + ytext(p, c.Chars, c.Width/2, true) + `"}, [1, 2`}
 	case "flow-mismatch":
 		return []string{key + ": [1, [2, {a: 3}], {b: [4, 5}]"}
 	case "bad-start-char":
@@ -313,12 +316,15 @@ func judgeYAML(c yamlCase, note func(r yamlRef, w want, known string)) string {
 		w = want{Line: r.line, Text: text, Pos: pos}
 		// cross-check of the library's own numbers: its character index must denote the same character
 		if got := utf8.RuneCount(data[:start+pos]); got != r.index {
-			rec.Discard("yaml/library-index-disagrees-with-its-line-column")
-			return fmt.Sprintf("DEBUG index %d vs %d line %d col %d %s", r.index, got, r.line, r.col, r.msg)
+			// (seen at the end of the stream, where the library moves its
+			// mark to a fresh line without advancing the index): only the
+			// line number and the quoted line are judged
+			rec.Class("yaml/library-index-disagrees-with-its-line-column")
+			w.Pos = -1
 		}
-		if knownClass("C17/yaml-char-index") && !isASCII(data[:start+pos]) {
+		if knownClass("C17/yaml-char-index") && !isASCII(data[:min(start+len(text), len(data))]) {
 			known = "C17/yaml-char-index"
-		} else if knownClass("C17/tab-column") && bytes.IndexByte(text[:pos], '\t') >= 0 {
+		} else if knownClass("C17/tab-column") && w.Pos >= 0 && bytes.IndexByte(text[:pos], '\t') >= 0 {
 			known = "C17/tab-column"
 		}
 	}
@@ -376,6 +382,12 @@ func judgeYAML(c yamlCase, note func(r yamlRef, w want, known string)) string {
 	reps, msg := parseBlocks(res.Stderr, "gojq: invalid yaml: ", []string{name})
 	if msg != "" {
 		return fmt.Sprintf("%s; exit %d, stderr %s", msg, res.Exit, clip([]byte(res.Stderr)))
+	}
+	if w.Pos < 0 {
+		if reps[0].Line != w.Line || !bytes.Contains(w.Text, []byte(reps[0].Excerpt)) {
+			return fmt.Sprintf("printed line %d with excerpt %q; the library reports line %d: %s (%s)", reps[0].Line, reps[0].Excerpt, w.Line, clip(w.Text), r.msg)
+		}
+		return ""
 	}
 	if msg := compare(reps[0], w); msg != "" {
 		return fmt.Sprintf("%s [mode %s, %d bytes, library mark line %d column %d: %s]", msg, c.Mode, len(data), r.line, r.col, r.msg)
